@@ -128,7 +128,7 @@ def _decode_tagged(rest):
         return rest
 
 
-def tlc(module, cfg=None, *, workers=8, timeout=900, env=None, simulate=None, depth=None, dfs=False, tag=None,
+def tlc(module, cfg=None, *, workers=8, timeout=900, env=None, simulate=None, depth=None, dfs=False, tag=None, allow_timeout=False,
         heap="8g", collect=("EDGE", "RUNVIOL", "FINAL", "REPLAY", "STAT"), tagged_file=None, extra=None,
         coverage=False, seed_=None):
     """Runs TLC on spec/<module>.tla with spec/<cfg>.cfg.  Tagged PrintT lines (<<"TAG", "json">>) are decoded
@@ -198,7 +198,7 @@ def tlc(module, cfg=None, *, workers=8, timeout=900, env=None, simulate=None, de
                 elif line.startswith("Error:") and r.error is None and r.violated is None:
                     r.error = line.strip()
                 elif "states generated" in line and "distinct states found" in line:
-                    m2 = re.search(r"(\d+) states generated, (\d+) distinct states found", line)
+                    m2 = re.search(r"(\d+) states generated.*?(\d+) distinct states found", line.replace(",", ""))
                     if m2:
                         r.generated, r.distinct = int(m2.group(1)), int(m2.group(2))
                 elif line.startswith("The number of states generated:"):
@@ -217,8 +217,12 @@ def tlc(module, cfg=None, *, workers=8, timeout=900, env=None, simulate=None, de
         tf.close()
     r.wall = time.time() - t0
     shutil.rmtree(meta, ignore_errors=True)
-    if r.timed_out:
+    if r.timed_out and not allow_timeout:
         raise ToolError("TLC timed out after %ds on %s/%s (log %s)" % (timeout, module, cfg, logf))
+    if r.timed_out:
+        # a bounded exploration that was cut short: what was explored held; reported as partial
+        log("[tlc] %s/%s stopped after %ds with %d distinct states explored (partial)" % (module, tag, timeout, r.distinct))
+        return r
     if r.error and r.violated is None:
         raise ToolError("TLC error on %s/%s: %s (log %s)" % (module, cfg, r.error, logf))
     return r
